@@ -41,7 +41,15 @@ namespace crypto {
 			}
 			virtual void append(void const *ptr,size_t size) 
 			{
-				impl::md5_append(&state_,reinterpret_cast<impl::md5_byte_t const *>(ptr),size);
+				// md5_append takes the byte count as an int: feed long inputs in pieces
+				impl::md5_byte_t const *p = reinterpret_cast<impl::md5_byte_t const *>(ptr);
+				size_t const max_chunk = 1u << 27;
+				while(size > max_chunk) {
+					impl::md5_append(&state_,p,max_chunk);
+					p += max_chunk;
+					size -= max_chunk;
+				}
+				impl::md5_append(&state_,p,size);
 			}
 			virtual void readout(void *ptr)
 			{
